@@ -24,8 +24,14 @@ REFINEMENTS = [
     ((P, "datasource.invoke"), ("Delegate", "invoke")),
     ((P, "parser.invoke"), ("Delegate", "invoke")),
 ]
+GROUPS = [dict(name="main", sidecars=SIDECARS, units=UNITS, refinements=REFINEMENTS),
+          # get_registry_points itself: what an exception may additionally be recorded against is only a registry point the component
+          # implements / is built on (in the main group it is an assumed function `regpoints` of the component)
+          dict(name="regpoints", sidecars=["dr", "dr_regpoints"], units=[(M, "get_registry_points")])]
 NOT_CARRIED = ["signal / alarm delivery: a timeout is 'the body may raise TimeoutException'",
-               "get_registry_points is an assumed read-only function of the component (regpoints)",
+               "in the evaluation loop get_registry_points is a read-only function `regpoints` of the component; the function itself is under contract in its "
+               "own group (every element is a registry point reachable through dependents - for a datasource - or dependencies; a registry point "
+               "maps to itself), with `reach` an abstract relation closed under one step and is_registry_point / is_datasource assumed type tests",
                "isolation of non-dependents is carried by the frames (instances of other components untouched); the 'same value as "
                "without the fault' reading needs the determinism lemma of C04"]
 
